@@ -251,6 +251,20 @@ func genVal(rt *rapid.T, t reflect.Type, depth int) Val {
 		}
 		n := rapid.IntRange(0, maxN).Draw(rt, "len")
 		v := Val{K: "slice", P: rapid.IntRange(0, nPaths-1).Draw(rt, "path")}
+		if depth <= 1 && rapid.IntRange(0, 24).Draw(rt, "longSlice") == 0 {
+			// a long slice (around powers of two): a few distinct elements repeated, so that the value stays
+			// small to generate while its length crosses any size threshold of the implementation
+			n = rapid.SampledFrom([]int{31, 32, 33, 63, 64, 65, 127, 128, 129, 257}).Draw(rt, "longLen")
+			k := rapid.IntRange(1, 3).Draw(rt, "longDistinct")
+			var pool []Val
+			for i := 0; i < k; i++ {
+				pool = append(pool, genVal(rt, t.Elem(), depth+2))
+			}
+			for i := 0; i < n; i++ {
+				v.E = append(v.E, pool[i%k])
+			}
+			return v
+		}
 		for i := 0; i < n; i++ {
 			v.E = append(v.E, genVal(rt, t.Elem(), depth+1))
 		}
